@@ -40,8 +40,12 @@ def judge_obs(case: dict, obs) -> core.CaseResult:
 
 
 def plan(tier: str) -> list[dict]:
-    return list(dagprop.std_plan(tier, controlled=(9, 150, 2500), serial=(1, 60, 1000), fork=(2, 20, 400), spawn=(1, 5, 80),
-                            gated_fork=(2, 12, 300), gated_spawn=(1, 3, 40))) + dagprop.exhaustive_jobs(tier, 4)
+    q = tier == 'quick'
+    jobs = list(dagprop.std_plan(tier, controlled=(7, 150, 2500), serial=(1, 60, 1000), fork=(2, 20, 400), spawn=(1, 5, 80),
+                                 gated_fork=(2, 12, 300), gated_spawn=(1, 3, 40))) + dagprop.exhaustive_jobs(tier, 4)
+    jobs += [{'engine': 'kill-focus:fork', 'n': 16 if q else 400, 'hashseed': i} for i in range(2)]
+    jobs += [{'engine': 'kill-focus:spawn', 'n': 3 if q else 40, 'hashseed': 3}]
+    return jobs
 
 
 def strategy(eng: str, gated: bool, seed: int):
@@ -63,7 +67,39 @@ def strategy(eng: str, gated: bool, seed: int):
     return st.builds(fin, s, st.booleans())
 
 
+def kill_focus(backend: str):
+    """Workers that die without reporting, with more submitted tasks than workers: the executor must notice the death, free the
+    slot and start what is queued, whatever else is (not) going on."""
+    from hypothesis import strategies as st
+
+    @st.composite
+    def gen(draw):
+        k = draw(st.integers(2, 6))
+        nodes = []
+        n_kill = 0
+        for i in range(k):
+            mode = draw(st.sampled_from(['ok', 'ok', 'kill9', 'kill15', 'raise:ValueError']))
+            if i == k - 1 and n_kill == 0:
+                mode = draw(st.sampled_from(['kill9', 'kill15']))
+            n_kill += mode.startswith('kill')
+            nodes.append({'id': i, 'type': draw(st.sampled_from(['NN', 'N1', 'Z'])), 'name': f'n{i}', 'mode': mode, 'read': True, 'payload': None,
+                          'deps': {'s': None}})
+        order = draw(st.permutations(list(range(k))))
+        if draw(st.booleans()):
+            nodes.append({'id': k, 'type': 'NN', 'name': f'n{k}', 'mode': 'ok', 'read': draw(st.booleans()), 'payload': None,
+                          'deps': {'list': [{'ref': j, 'fresh': False} for j in order[:2]]}})
+            order = list(order) + [k]
+        return {'nodes': nodes, 'requested': [{'ref': i, 'fresh': False} for i in order],
+                'lab': {'backend': backend, 'max_workers': draw(st.sampled_from([1, 1, 2])), 'continue_on_failure': True, 'bust_cache': False,
+                        'storage': draw(st.sampled_from(['local', 'none'])), 'displays': draw(st.booleans()), 'context': {}},
+                'pre_cached': [], 'schedule': draw(st.lists(st.integers(0, 7), max_size=10)), 'gated': draw(st.booleans())}
+    return gen()
+
+
 def run_job(rec: core.Recorder, job: dict, seed: int) -> None:
+    if job['engine'].startswith('kill-focus'):
+        core.run_hypothesis(rec, job['engine'], kill_focus(job['engine'].split(':')[1]), check, max_examples=job['n'], seed=seed, shrink=False)
+        return
     if job['engine'] == 'exhaustive-small':
         dagprop.run_exhaustive_job(rec, job, judge_obs, failing=True, cached=False)
         return
